@@ -114,6 +114,97 @@ let run_file_script (r : M.route) (bytes : M.z list) (script : string) : string 
     String.concat " " (List.rev !outs)
   | r -> "init:" ^ show_res_code (fun _ -> "0") r
 
+(* ---------- binary32 bit patterns -> exact values *)
+let q_of_zz (num : Z.t) (den : Z.t) : M.q = { M.qnum = z_of_zz num; M.qden = pos_of_zz den }
+
+type fval = FNaN | FNegInf | FPosInf | FFin of Z.t * Z.t   (* num, den (power of two) *)
+
+let fval_of_hex (s : string) : fval =
+  let u = int_of_string ("0x" ^ s) in
+  let sign = (u lsr 31) land 1 and e = (u lsr 23) land 255 and m = u land 0x7FFFFF in
+  if e = 255 then (if m <> 0 then FNaN else if sign = 1 then FNegInf else FPosInf)
+  else begin
+    let mant = if e = 0 then m else m lor 0x800000 in
+    let ex = (if e = 0 then 1 else e) - 150 in
+    let num = Z.of_int (if sign = 1 then - mant else mant) in
+    if ex >= 0 then FFin (Z.shift_left num ex, Z.one)
+    else FFin (num, Z.shift_left Z.one (- ex))
+  end
+
+let ftime_of_hex s = match fval_of_hex s with
+  | FNaN -> M.TNaN | FNegInf -> M.TNegInf | FPosInf -> M.TPosInf
+  | FFin (n, d) -> M.TFin (q_of_zz n d)
+
+let string_of_q (q : M.q) : string =
+  let n = zz_of_z q.M.qnum and d = zz_of_pos q.M.qden in
+  let g = Z.gcd n d in
+  let g = if Z.equal g Z.zero then Z.one else g in
+  let n = Z.div n g and d = Z.div d g in
+  if Z.equal d Z.one then Z.to_string n else Z.to_string n ^ "/" ^ Z.to_string d
+
+(* ---------- RTH (C11) *)
+let run_rth (b : M.z list) (pts : int list) (times : string list) : string =
+  match M.plan_init b with
+  | M.Ok pl ->
+    let hd = pr "init:0 ne=%d np=%d" (int_of_nat (M.num_entries pl)) (int_of_nat pl.M.pl_num_points) in
+    let ps = List.map (fun i ->
+        "p:" ^ show_res_code (fun (x, y) -> pr "0:%s,%s" (string_of_z x) (string_of_z y)) (M.get_point pl (z_of_int i))) pts in
+    let qs = List.map (fun t ->
+        "q:" ^ show_res_code (fun (r : M.eval_result) ->
+            let (tx, ty) = r.M.r_target in
+            pr "0:%s,%s,%s,%s,%s,%s,%s,%s,%s,%s"
+              (match r.M.r_time with Some z -> string_of_z z | None -> "in")
+              (string_of_z r.M.r_action) (string_of_z r.M.r_duration) (string_of_z tx) (string_of_z ty)
+              (string_of_z r.M.r_altitude) (string_of_z r.M.r_pre_delay) (string_of_z r.M.r_post_delay)
+              (string_of_z r.M.r_neck) (string_of_z r.M.r_neck_duration))
+          (M.evaluate_at pl (ftime_of_hex t))) times in
+    String.concat " " (hd :: ps @ qs)
+  | r -> "init:" ^ show_res_code (fun _ -> "0") r
+
+(* ---------- trajectory (C01 C07 C08) *)
+let qtime_of_hex s = match fval_of_hex s with
+  | FNaN -> failwith "NaN time" | FNegInf -> M.QNegInf | FPosInf -> M.QPosInf
+  | FFin (n, d) -> M.QFin (q_of_zz n d)
+
+let qabs_of_time = function M.QFin q -> q | _ -> { M.qnum = M.Z0; M.qden = M.XH }
+
+let show_vec4 (v : M.vec4) = pr "%s,%s,%s,%s" (string_of_q v.M.vx) (string_of_q v.M.vy) (string_of_q v.M.vz) (string_of_q v.M.vyaw)
+
+(* traj <hex> <queries>: each query is a letter (p,v,a) followed by the binary32 time; the
+   cursor is threaded through the queries like the C player ('h' mode) or reset for each ('f' mode) *)
+let run_traj (mode : string) (b : M.z list) (queries : string list) : string =
+  match M.traj_init b with
+  | M.Ok tr ->
+    let dur = show_res_code (fun d -> string_of_z d) (M.total_duration_msec tr) in
+    let segs = M.segments_prefix tr in
+    let nseg = show_res_code (fun l -> string_of_int (List.length l)) (M.segments tr) in
+    let hd = pr "init:0 scale=%s yaw=%d start=%s dur=%s nseg=%s" (string_of_z tr.M.t_scale) (if tr.M.t_use_yaw then 1 else 0)
+        (show_vec4 tr.M.t_start) dur nseg in
+    let cur = ref (M.cursor0 tr) in
+    let outs = List.map (fun qs ->
+        let kind = qs.[0] in
+        let t = qtime_of_hex (String.sub qs 1 (String.length qs - 1)) in
+        let c = if mode = "h" then !cur else M.cursor0 tr in
+        match M.seek tr c t with
+        | M.Ok l ->
+          cur := M.landing_cursor l;
+          let (v, k) = (match kind with
+              | 'p' -> (M.position_of l, 0) | 'v' -> (M.velocity_of l, 1) | _ -> (M.acceleration_of l, 2)) in
+          let tq = (match M.clamp0 t with M.QFin q -> q | _ -> qabs_of_time t) in
+          let tol = M.tol_at (nat_of_int k) segs tq in
+          pr "%c:0:%s:%s:%d" kind (show_vec4 v) (string_of_q tol) (int_of_nat (M.landing_cursor l).M.c_off)
+        | r -> pr "%c:%s" kind (show_res_code (fun _ -> "0") r)) queries in
+    let extra = List.map (fun (lbl, th) ->
+        let t = qtime_of_hex th in
+        match M.seek tr (M.cursor0 tr) t with
+        | M.Ok l ->
+          let tq = (match M.clamp0 t with M.QFin q -> q | _ -> qabs_of_time t) in
+          let tol = M.tol_at M.O segs tq in
+          pr "%s:0:%s:%s:%d" lbl (show_vec4 (M.position_of l)) (string_of_q tol) (int_of_nat (M.landing_cursor l).M.c_off)
+        | r -> pr "%s:%s" lbl (show_res_code (fun _ -> "0") r)) [("s", "00000000"); ("e", "7f800000")] in
+    String.concat " " (hd :: outs @ extra)
+  | r -> "init:" ^ show_res_code (fun _ -> "0") r
+
 (* ---------- dispatch *)
 let run_case (w : string list) : string =
   match w with
@@ -137,6 +228,8 @@ let run_case (w : string list) : string =
   | ["rgbenc"; r; g; b] ->
     pr "ok %s" (string_of_z (M.encode_rgb565 { M.red = z_of_string r; M.green = z_of_string g; M.blue = z_of_string b }))
   | ["file"; r; b; script] -> run_file_script (route_of r) (bytes_of_hex b) script
+  | ["traj"; mode; b; qs] -> run_traj mode (bytes_of_hex b) (if qs = "-" then [] else String.split_on_char ',' qs)
+  | ["rth"; b; pts; times] -> run_rth (bytes_of_hex b) (ints_of_csv pts) (if times = "-" then [] else String.split_on_char ',' times)
   | ["load"; k; r; b] ->
     let kd = (match k with "traj" -> M.KTraj | "light" -> M.KLight | "yaw" -> M.KYaw | "rth" -> M.KRth | _ -> failwith "kind") in
     show_res_code (fun (body, owned) -> pr "ok %d %s" (if owned then 1 else 0) (hex_of_bytes body)) (M.load kd (route_of r) (bytes_of_hex b))
